@@ -76,6 +76,16 @@ def offered(t, kinds, maxdepth=3):
     return out
 
 
+def idx_key(t):
+    """a key that is not callable (documented: then it is an index into the element): position 0
+    of a tuple-typed element whose first component is a plain element"""
+    return ["idx0"] if is_seq(t) and t[0] == "H" and t[1] and t[1][0] == "E" else []
+
+
+def key_arg(i, p, fn):
+    return 0 if p["key"] == "idx0" else fn(i, p["key"])
+
+
 @st.composite
 def node_params(draw, k, t, nodes, me_parent, maxdepth):
     """returns (params, parents, out_type)"""
@@ -131,14 +141,14 @@ def node_params(draw, k, t, nodes, me_parent, maxdepth):
         ot = t
     elif k in ("partition", "partition_t"):
         p["n"] = draw(st.integers(1, 4))
-        p["key"] = draw(st.sampled_from([None, None, "key_mod2", "key_self"]))
+        p["key"] = draw(st.sampled_from([None, None, "key_mod2", "key_self"] + idx_key(t)))
         if k == "partition_t":
             p["timeout"] = draw(st.sampled_from(INTERVALS + [0]))   # 0: next turn of the loop
             ot = ["L", t]
         else:
             ot = ["H", [t] * p["n"]]
     elif k == "partition_unique":
-        p["key"] = draw(st.sampled_from(["key_self", "key_mod2", "key_mod3"]))
+        p["key"] = draw(st.sampled_from(["key_self", "key_mod2", "key_mod3"] + idx_key(t)))
         p["n"] = draw(st.integers(1, {"key_mod2": 2, "key_mod3": 3}.get(p["key"], 3)))
         p["keep"] = draw(st.sampled_from(["first", "last"]))
         ot = ["H", [t] * p["n"]]
@@ -217,7 +227,7 @@ def node_params(draw, k, t, nodes, me_parent, maxdepth):
         ot = ["LL", t]
     elif k == "timed_window_unique":
         p["i"] = draw(st.sampled_from(INTERVALS))
-        p["key"] = draw(st.sampled_from(["key_self", "key_mod2", "key_mod3"]))
+        p["key"] = draw(st.sampled_from(["key_self", "key_mod2", "key_mod3"] + idx_key(t)))
         p["keep"] = draw(st.sampled_from(["first", "last"]))
         ot = ["L", t]
     elif k == "latest":
@@ -371,15 +381,15 @@ def build(spec, log, asynchronous, consumer_modes=None, faults=None, wrap_fn=Non
         elif k == "partition":
             kw = {}
             if p["key"]:
-                kw["key"] = fn(i, p["key"])
+                kw["key"] = key_arg(i, p, fn)
             s = ups[0].partition(p["n"], **kw)
         elif k == "partition_t":
             kw = {}
             if p["key"]:
-                kw["key"] = fn(i, p["key"])
+                kw["key"] = key_arg(i, p, fn)
             s = ups[0].partition(p["n"], timeout=p["timeout"], **kw)
         elif k == "partition_unique":
-            s = ups[0].partition_unique(p["n"], key=fn(i, p["key"]), keep=p["keep"])
+            s = ups[0].partition_unique(p["n"], key=key_arg(i, p, fn), keep=p["keep"])
         elif k == "sliding_window":
             s = ups[0].sliding_window(p["n"], return_partial=p["partial"])
         elif k == "unique":
@@ -433,7 +443,7 @@ def build(spec, log, asynchronous, consumer_modes=None, faults=None, wrap_fn=Non
         elif k == "timed_window":
             s = ups[0].timed_window(p["i"])
         elif k == "timed_window_unique":
-            s = ups[0].timed_window_unique(p["i"], key=fn(i, p["key"]), keep=p["keep"])
+            s = ups[0].timed_window_unique(p["i"], key=key_arg(i, p, fn), keep=p["keep"])
         elif k == "latest":
             s = ups[0].latest()
         else:
